@@ -293,7 +293,9 @@ func (g *pgen) finish(text string, st *state) *Program {
 		p.Norm = map[string]Norm{"": st.bareTaint}
 	}
 	for n, f := range st.fields {
-		if st.rec && f.Taint != NormNone {
+		// also for a mixture of records and scalars (st.rec false after a fork):
+		// the comparison applies field taints to whatever records there are
+		if f.Taint != NormNone {
 			if p.Norm == nil {
 				p.Norm = map[string]Norm{}
 			}
